@@ -18,6 +18,7 @@ RAC = {
     'lint_group_cache': dict(crate=CORE, attach=S + 'linting/lint_group.rs', file='lint_group.rs', test='rac_lint_group_cache', function='LintGroup::lint (chunk cache rebase)'),
     'lsp_glue': dict(crate='harper-ls', attach='harper-ls/src/document_state.rs', file='document_state.rs', test='rac_lsp_glue', target=['--bin', 'harper-ls'], function='DocumentState::generate_diagnostics / generate_code_actions / lint_to_code_actions'),
     'fuzzy_backends': dict(crate=CORE, attach=S + 'spell/fst_dictionary.rs', file='fuzzy.rs', test='rac_fuzzy_backends', function='FstDictionary / MutableDictionary (exact queries, fuzzy_match)'),
+    'condense_indices': dict(crate=CORE, attach=S + 'document.rs', file='document.rs', test='rac_condense_indices', function='Document::condense_indices'),
 }
 # Verus piece name -> runtime contract checks that exercise the same clause on the real code
 RAC_FOR_FUNCTION = {
@@ -46,6 +47,7 @@ for _f in ('lex_escaped', 'lex_uchar', 'lex_xchar', 'lex_xchar_string', 'is_xcha
     RAC_FOR_FUNCTION[_f] = ['url_scanner', 'lexers']
 
 UNIT_RAC = {
+    'document': ['document_tiles', 'condense_indices'],
     'url': ['url_scanner', 'lexers'],
     'suggestion': ['suggestion_apply'],
     'overlaps': ['remove_overlaps', 'remove_indices'],
@@ -54,3 +56,5 @@ UNIT_RAC = {
     'patterns': ['pattern_contract'],
     'merged_dictionary': ['merged_union'],
 }
+for _f in ('condense_spaces', 'condense_newlines', 'condense_dotted_initialisms', 'condense_number_suffixes', 'condense_indices', 'get_span_content'):
+    RAC_FOR_FUNCTION['Document::' + _f] = ['document_tiles', 'condense_indices']
